@@ -201,7 +201,7 @@ def resolve_value(n, atom, fn=None):
     """value of an expression under atom assumptions: follows ?: and single-assignment locals; returns leaf node"""
     n = deref_local(fn, n)
     while isinstance(n, dict) and n.get("k") == "cond":
-        v = eval_cond(n.get("cond"), atom)
+        v = eval_cond(n.get("cond"), atom, fn)
         if v is None:
             return n
         n = deref_local(fn, n.get("t") if v else n.get("f"))
